@@ -550,6 +550,34 @@ theorem T_C06_float_neg_partial (cs : List Char) (h : (cs.head? == some '-') = f
 example : floatValue "-1.16".toList = (floatValue "1.16".toList).map (fun q => -q) :=
   T_C06_float_neg_partial "1.16".toList (by decide) (by decide)
 
+/-- **T_C06_repr_accepted_fixed_neg.** Negative doubles: for every dyadic `x ≤ −1` the digit search on `|x|` returns a candidate and,
+    if the stripped digits fall in the fixed-notation range, the text `pyRepr` prints (a `-` followed by the layout of `|x|`) is
+    accepted by the validator `reprOk true x` — the sign test, the negated value (`T_C06_float_neg_partial`) and the symmetry of the
+    rounding interval (`inRound_neg_of_pos`) included. With `T_C06_repr_accepted_fixed_ge_one` the generated text is accepted for
+    fixed-notation doubles of either sign with `|x| ≥ 1`. -/
+theorem T_C06_repr_accepted_fixed_neg (x : Rat) (hx : x ≤ -1) (hd : x.den = 2 ^ Nat.log2 x.den) :
+    ∃ m e, shortestFrom x (absR x) (decPoint (absR x)) 17 1 = some (m, e) ∧
+      (-4 < ((Nat.toDigits 10 (stripZeros 20 m e).1).length : Int) + (stripZeros 20 m e).2 →
+       ((Nat.toDigits 10 (stripZeros 20 m e).1).length : Int) + (stripZeros 20 m e).2 ≤ 16 →
+       reprOk true x (pyReprChars true x) = true) := by
+  have hneg : x < 0 := by linarith
+  have habs : absR x = -x := by unfold absR; simp [hneg]
+  have hpos : 0 < -x := by linarith
+  have hxd : (-x).den = 2 ^ Nat.log2 (-x).den := by simpa [Rat.neg_den] using hd
+  have h17 := candidate17_inRound (-x) hpos hxd (decPoint (-x)) (decPoint_spec_ge_one (-x) (by linarith))
+  obtain ⟨⟨m, e⟩, hr⟩ := shortestFrom_some x (absR x) (decPoint (absR x)) 17 1
+    ⟨17, by omega, by omega, by rw [habs]; exact_mod_cast h17⟩
+  exact ⟨m, e, hr, fun h1 h2 => reprOk_pyReprChars_fixed_neg x hneg hd m e hr h1 h2⟩
+
+/-- −1.16: the hypotheses hold, and the printed text `-1.16` is accepted -/
+example : reprOk true (-(5224175567749775 / 4503599627370496)) (pyReprChars true (-(5224175567749775 / 4503599627370496))) = true :=
+  reprOk_pyReprChars_fixed_neg _ (by norm_num) (by decide +kernel) 116 (-2) (by decide +kernel) (by decide +kernel)
+    (by decide +kernel)
+
+example : True := by
+  have _h := T_C06_repr_accepted_fixed_neg (-(5224175567749775 / 4503599627370496)) (by norm_num) (by decide +kernel)
+  trivial
+
 /-- **T_C06_repr_layout_fixed.** Reading the fixed-notation layouts back: for any digits `ds` (value `M`) and decimal point position
     `-4 < dp ≤ 16`, `floatValue (reprLayout ds dp) = M · 10^(dp − |ds|)`. -/
 theorem T_C06_repr_layout_fixed (ds : List Char) (dp : Int) (hne : ds ≠ []) (hd : ∀ c ∈ ds, c.isDigit = true)
